@@ -51,19 +51,23 @@ type Op struct {
 	PT *PanicTarget `json:"pt,omitempty"`
 	// Dst is the prior content of the destination for builder/nested routes (C16).
 	Dst []Step `json:"dst,omitempty"`
+	// In is the inner op of a composite op.
+	In *Op `json:"in,omitempty"`
 	// N is a small integer parameter (kind specific).
 	N int `json:"n,omitempty"`
 }
 
 type PanicTarget struct {
-	ID     int    `json:"id"`
-	Method string `json:"method"`
-	K      int    `json:"k"`    // panic raised before step K of the script
-	Verb   string `json:"verb"` // verb the target is printed under
-	Dirv   string `json:"dirv"` // full directive (for fmt twin), e.g. "%+10v"
-	Ctx    string `json:"ctx"`  // plain | safe | unsafe
-	NilRcv bool   `json:"nilrcv,omitempty"`
-	Nested bool   `json:"nested,omitempty"` // payload's own printing panics: propagates
+	ID      int    `json:"id"`
+	Method  string `json:"method"`
+	K       int    `json:"k"`    // panic raised before step K of the script
+	Verb    string `json:"verb"` // verb the target is printed under
+	Dirv    string `json:"dirv"` // full directive (for fmt twin), e.g. "%+10v"
+	Ctx     string `json:"ctx"`  // plain | safe | unsafe
+	Depth   int    `json:"depth,omitempty"`
+	Payload []Val  `json:"payload,omitempty"`
+	NilRcv  bool   `json:"nilrcv,omitempty"`
+	Nested  bool   `json:"nested,omitempty"` // payload's own printing panics: propagates
 }
 
 // Val is an operand descriptor. Operands are rebuilt from descriptors
@@ -111,14 +115,19 @@ type WSpec struct {
 type Violation struct {
 	Prop      string `json:"prop"`
 	Invariant string `json:"invariant"`
-	Task      int    `json:"task"`
-	OpIdx     int    `json:"op"`
-	Detail    string `json:"detail"`
-	Expected  string `json:"expected,omitempty"`
-	Actual    string `json:"actual,omitempty"`
+	// Class tells apart different failures of the same invariant (the op
+	// kind and the shape of the failure), so that minimisation does not
+	// drift from one defect to another and a known finding does not
+	// hide a different one.
+	Class    string `json:"class,omitempty"`
+	Task     int    `json:"task"`
+	OpIdx    int    `json:"op"`
+	Detail   string `json:"detail"`
+	Expected string `json:"expected,omitempty"`
+	Actual   string `json:"actual,omitempty"`
 }
 
-func (v *Violation) key() string { return v.Prop + "/" + v.Invariant }
+func (v *Violation) key() string { return v.Prop + "/" + v.Invariant + "/" + v.Class }
 
 func loadPlan(path string) (*Plan, error) {
 	b, err := os.ReadFile(path)
